@@ -6,34 +6,40 @@ import HugrVerif.Drive.Serial
 /-
   Line-protocol handler for the rendering stream (C20).
 
-  stream `render.run`   payload (config (cp…) json)
-        config as in `Bridge/Render.lean`; (cp…) the non-printable non-ASCII code points occurring in the
+  stream `render.run`   payload ((config…) (cp…) json)
+        configs as in `Bridge/Render.lean`; (cp…) the non-printable non-ASCII code points occurring in the
         document (`str.isprintable`); json the document `Hugr.to_json()` produced.
-     -> the JSON dump of `render (loadJson doc) config`, or {"error": cls}
-        (`KeyError` for an unknown palette name; `Load:<cls>` if the document does not load).
+     -> a JSON array with, per config, the dump of `render (loadJson doc) config` or {"error": cls}
+        (`KeyError` for an unknown palette name; `Load:<cls>` if the document does not load);
+        `!unsupported` if a string the renderer prints is outside `PyStr.lean`.
 -/
 namespace HugrVerif.Drive.Render
 open HugrVerif HugrVerif.Sexp HugrVerif.Bridge HugrVerif.Bridge.Render HugrVerif.Render
 
-def errJson (cls : String) : String := jsonText (.obj [("error", .str cls)])
+def errJson (cls : String) : Json := .obj [("error", .str cls)]
 
 def handle (payload : Sexp) : String :=
   match payload with
-  | .list [cfgS, .list nps, docS] =>
-    match parseConfig cfgS, nps.mapM Sexp.toNat?, jsonOfSexp docS with
-    | some cfg?, some np, some doc =>
-      match cfg? with
-      | none => errJson "KeyError"
-      | some cfg =>
+  | .list [.list cfgS, .list nps, docS] =>
+    match cfgS.mapM parseConfig, nps.mapM Sexp.toNat?, jsonOfSexp docS with
+    | some cfgs, some np, some doc =>
+      if cfgs.all Option.isNone then jsonText (.arr (cfgs.map fun _ => errJson "KeyError"))
+      else
         let fuel := Drive.Serial.jsonSize doc + 8
         match Serial.loadJson (Serial.opsCodec fuel) doc with
-        | .error e => errJson ("Load:" ++ e.name)
+        | .error e => jsonText (.arr (cfgs.map fun
+            | none => errJson "KeyError"
+            | some _ => errJson ("Load:" ++ e.name)))
         | .ok s =>
           if !supported np s then "!unsupported"
           else
-            match render (pyStrs np) s cfg with
-            | .error e => errJson e.name
-            | .ok out => jsonText (dump out)
+            let E := pyStrs np
+            jsonText (.arr (cfgs.map fun
+              | none => errJson "KeyError"
+              | some cfg =>
+                match render E s cfg with
+                | .error e => errJson e.name
+                | .ok out => dump out))
     | _, _, _ => "!bad-payload"
   | _ => "!bad-payload"
 
